@@ -1,10 +1,10 @@
 SPECIFICATION Spec
 CONSTANTS
-  FeatLo = 0 FeatHi = 3 OptSets <- OptWidth LevSets <- LevSome
-  Orders = {"std", "rev", "mix", "featfirst"}
+  FeatLo = 1 FeatHi = 2 OptSets <- OptWidth LevSets <- LevNone
+  Orders = {"std", "mix"}
   Casings = {"mixed"}
-  Encs = {"pm", "bool"}
-  NanCls = {"none", "first", "two"}
+  Encs = {"pm"}
+  NanCls = {"none", "two"}
   Chunks = {2, 19}
   Workers = {1, 2}
   RowCls = {"one", "two"}
